@@ -707,6 +707,36 @@ def check_e(ck, repo):
                         cst,
                         f"{label}: when {' and '.join(bad[2]) or 'always'}, the inner estimator is fitted on the caller's '{bad[0]}' itself with {kw.arg}={bad[1]}: scikit-learn then rescales/centres the data in place although the outer copy flag asks for a copy",
                     )
+    # call-time flags: `obj.method(<the caller's array>, copy=False)` asks the callee to work in place
+    for fi in sorted(repo.all_functions.values(), key=lambda f: f.qualname):
+        if fi.cls is None or not fi.named_params:
+            continue
+        data_params = [p for p in fi.named_params if p not in ("self", "cls") and p not in NON_DATA]
+        if not data_params:
+            continue
+        st0 = {p: frozenset({p}) for p in data_params}
+        for c in own_nodes(fi.node):
+            if not (isinstance(c, ast.Call) and isinstance(c.func, ast.Attribute) and c.args):
+                continue
+            flags = [k for k in c.keywords if k.arg in COPY_FLAGS or k.arg == "inplace"]
+            if not flags:
+                continue
+            kw = flags[0]
+            at = sem.stmt_of(c)
+            n += 1
+            off = (const_value(kw.value) is False) if kw.arg != "inplace" else (const_value(kw.value) is True)
+            roots = set()
+            for dc, dv, _ in sem.guarded_values(repo, fi, c.args[0], at) or [(frozenset(), c.args[0], None)]:
+                roots |= {r for r in eff.alias(dv, st0, fi) if r in data_params}
+            if isinstance(c.args[0], ast.Name) and c.args[0].id in data_params:
+                # a parameter not rebound before the call is the caller's object
+                rebound = any(isinstance(s_, ast.Assign) and s_.lineno < at.lineno and any(isinstance(t_, ast.Name) and t_.id == c.args[0].id for t_ in ast.walk(s_) if isinstance(t_, ast.Name) and isinstance(t_.ctx, ast.Store)) for s_ in own_nodes(fi.node))
+                if not rebound:
+                    roots.add(c.args[0].id)
+            if off and roots:
+                ck.violated("C02.e", fi, at, f"{fi.cls.name}.{fi.name}: {src_of(c)[:70]} hands the caller's '{sorted(roots)[0]}' to {src_of(c.func)} with {kw.arg}={src_of(kw.value)}: the callee is asked to transform the array in place, so the caller's data are overwritten")
+            else:
+                ck.holds("C02.e", fi, at, f"{src_of(c)[:60]}: " + ("the flag keeps the copy" if not off else "the argument is not the caller's array"), nontrivial=False)
     return n
 
 
@@ -763,6 +793,7 @@ WITNESSES = [
     {"name": "tsne-mutates-transformer-param", "file": "mlinsights/mlmodel/predictable_tsne.py", "rule": "C02.b", "old": "        self.transformer_ = clone(self.transformer)\n", "new": "        self.transformer.set_params(perplexity=5)\n        self.transformer_ = clone(self.transformer)\n"},
     {"name": "tsdiff-view-of-y-written", "file": "mlinsights/timeseries/preprocessing.py", "rule": "C02.c", "old": "        self.y_ = y[: self.degree].copy()\n", "new": "        self.y_ = numpy.asarray(y[: self.degree])\n"},
     {"name": "permutation-fit-no-return", "file": "mlinsights/mlmodel/sklearn_transform_inv_fct.py", "rule": "C02.a", "old": "        self.permutation_ = perm\n        return self\n", "new": "        self.permutation_ = perm\n"},
+    {"name": "tsne-normalizer-in-place", "file": "mlinsights/mlmodel/predictable_tsne.py", "rule": "C02.e", "old": "            X = self.normalizer_.transform(X)\n        pred = self.estimator_.predict(X)", "new": "            X = self.normalizer_.transform(X, copy=False)\n        pred = self.estimator_.predict(X)"},
     {"name": "quantile-inner-copy-off-when-aliased", "file": _QR, "rule": "C02.e", "old": "            copy_X=self.copy_X,\n            n_jobs=self.n_jobs,", "new": "            copy_X=self.copy_X if self.fit_intercept else False,\n            n_jobs=self.n_jobs,"},
     {"name": "quantile-inner-copy-and-intercept", "file": _QR, "rule": "C02.e", "old": "            copy_X=self.copy_X,\n            n_jobs=self.n_jobs,", "new": "            copy_X=self.copy_X and self.fit_intercept,\n            n_jobs=self.n_jobs,"},
     {"name": "quantile-inner-copy-off", "file": _QR, "rule": "C02.e", "old": "            copy_X=self.copy_X,\n            n_jobs=self.n_jobs,", "new": "            copy_X=False,\n            n_jobs=self.n_jobs,"},
